@@ -52,6 +52,9 @@ func genC13(seed uint64, idx int, tier string) interface{} {
 	pl := &C13Plan{Property: "C13", RunSeed: rs, Idx: idx, After: "prng"}
 	pl.Recipe = GenRecipe(r.Fork(1), opt)
 	v := VocabOf(pl.Recipe, fresh)
+	if r.Bool(0.5) {
+		v = v.Themed(r.Fork(7))
+	}
 	ir := r.Fork(2)
 	for i, n := 0, r.Range(2, 5); i < n; i++ {
 		switch {
@@ -158,6 +161,9 @@ type taskCtx struct {
 	sitePerms  map[string]map[string]bool
 	cbCalls    int
 	fixture    string
+	held       int // >0: inside a region of library code that holds a lock; never park there
+	syncPoints int
+	heldSkips  int
 }
 
 // tasks is written by the main goroutine before the tasks are started and read
@@ -165,6 +171,10 @@ type taskCtx struct {
 var tasks []*taskCtx
 
 func (t *taskCtx) yield(kind string) {
+	if t.held > 0 {
+		t.heldSkips++
+		return
+	}
 	k := uint32(evRead)
 	if kind == "write" {
 		k = evWrite
@@ -179,7 +189,39 @@ func c13CallbackHook(name string) {
 	}
 	t := tasks[c]
 	t.cbCalls++
+	if t.held > 0 {
+		t.heldSkips++
+		return
+	}
 	park(t.reqW, t.resR, t.id, evCallback, strTag(name)&0xffff)
+}
+
+// c13SyncHook: every use of sync / sync/atomic inside the library is a scheduling point
+// (inserted by the instrumenter), unless the task is inside a lock-holding region.
+func c13SyncHook(site string) {
+	c := getCur()
+	if c < 0 {
+		return
+	}
+	t := tasks[c]
+	if t.held > 0 {
+		t.heldSkips++
+		return
+	}
+	t.syncPoints++
+	park(t.reqW, t.resR, t.id, evSync, strTag(site)&0xffff)
+}
+
+func c13HeldHook(delta int) {
+	c := getCur()
+	if c < 0 {
+		return
+	}
+	t := tasks[c]
+	t.held += delta
+	if t.held < 0 {
+		t.held = 0
+	}
 }
 
 func c13OrderHook(site string, n int) []int {
@@ -188,7 +230,7 @@ func c13OrderHook(site string, n int) []int {
 		return nil // main goroutine: canonical order
 	}
 	t := tasks[c]
-	if n >= 1 {
+	if n >= 1 && t.held == 0 {
 		park(t.reqW, t.resR, t.id, evMap, strTag(site)&0xffff)
 	}
 	t.mapVisits++
@@ -382,6 +424,8 @@ func runC13inner(planJSON []byte, canary bool) (*RunResult, error) {
 		return res, nil
 	}
 	verifsim.Order = c13OrderHook
+	verifsim.YieldHook = c13SyncHook
+	verifsim.HeldHook = c13HeldHook
 	cbHook = c13CallbackHook
 	clearTasks()
 
@@ -521,6 +565,8 @@ func runC13inner(planJSON []byte, canary bool) (*RunResult, error) {
 			sites = append(sites, s)
 		}
 		res.count("callbacks", int64(t.cbCalls))
+		res.count("library_sync_points", int64(t.syncPoints))
+		res.count("points_skipped_lock_held", int64(t.heldSkips))
 		for _, op := range t.ops {
 			res.count("ops."+op.Entry, 1)
 			if op.WFault != nil || op.Read.Fault != nil {
